@@ -333,11 +333,11 @@ def hAllocPut (cfg : Config) (db : DB R) (mv : Nat) (c : ConsumerReq) : DB R × 
   | (db1, .error r) => (db1, r)
   | (db1, .ok (cons, created, attr)) =>
     match allocObjects db1 cons c with
-    | .error r => (db1, r)
+    | .error r => ((if created then deleteConsumerRows db1 [cons.id] else db1), r)
     | .ok objs =>
       let db2 := updateConsumer db1 cons attr
       match setAllocations db2 objs with
-      | .ok db3 => (db3, r204)
+      | .ok db3 => ((if created && objs.isEmpty then deleteConsumerRows db3 [cons.id] else db3), r204)
       | .error e => ((if created then deleteConsumerRows db1 [cons.id] else db1), allocErr e)
 
 /-- `inspect_consumers`: ensure every consumer; on the first failure delete those created so far -/
@@ -362,17 +362,21 @@ def updateConsumers (db : DB R) : List (ConsumerReq × ConsRow × ReqAttr) → D
   | [] => db
   | (_, cons, attr) :: rest => updateConsumers (updateConsumer db cons attr) rest
 
+/-- consumers created by this request whose entry carries no allocations -/
+def createdEmpty (triples : List (ConsumerReq × ConsRow × ReqAttr)) (created : List Nat) : List Nat :=
+  (triples.filter (fun t => created.contains t.2.1.id && t.1.allocs.isEmpty)).map (·.2.1.id)
+
 def hAllocPost (cfg : Config) (db : DB R) (mv : Nat) (cs : List ConsumerReq) : DB R × Resp :=
   if mv < 13 then (db, r404) else
   match inspectConsumers cfg mv db cs [] [] with
   | (db1, .error r) => (db1, r)
   | (db1, .ok (triples, created)) =>
     match allocObjectsAll db1 triples with
-    | .error r => (db1, r)
+    | .error r => (deleteConsumerRows db1 created, r)
     | .ok objs =>
       let db2 := updateConsumers db1 triples
       match setAllocations db2 objs with
-      | .ok db3 => (db3, r204)
+      | .ok db3 => (deleteConsumerRows db3 (createdEmpty triples created), r204)
       | .error e => (deleteConsumerRows db1 created, allocErr e)
 
 def hAllocDelete (db : DB R) (consumer : Nat) : DB R × Resp :=
@@ -452,11 +456,11 @@ def hReshape (cfg : Config) (db : DB R) (mv : Nat) (invs : List (RpInvReq R)) (c
     | (db1, .error r) => (db1, r)
     | (db1, .ok (triples, created)) =>
       match allocObjectsAll db1 triples with
-      | .error r => (db1, r)
+      | .error r => (deleteConsumerRows db1 created, r)
       | .ok objs =>
         let db2 := updateConsumers db1 triples
         match reshapeTxn db2 rinvs objs with
-        | .ok db3 => (db3, r204)
+        | .ok db3 => (deleteConsumerRows db3 (createdEmpty triples created), r204)
         | .error e => (deleteConsumerRows db1 created, reshapeErr e)
 
 /-! ### dispatch -/
